@@ -281,6 +281,22 @@ def config(rc):
 _VE_Q_OLD = "        if isinstance(self.model, BayesianNetwork) and (virtual_evidence is not None):\n            orig_model = self.model\n            self._virtual_evidence(virtual_evidence)\n            virt_evidence = {\"__\" + cpd.variables[0]: 0 for cpd in virtual_evidence}\n            try:\n                return self.query("
 
 
+@rule("C16.memo", "caches that outlive a call are keyed by everything the cached value depends on; BP re-calibrates unless the tree IS calibrated for the operation", floor=2)
+def memo(rc):
+    shared.memo_rule(rc, ("pgmpy/inference/", "pgmpy/sampling/", "pgmpy/estimators/", "pgmpy/models/", "pgmpy/factors/"))
+    q = rc.repo.func(EI, "BeliefPropagation._query")
+    uses = [n for n in walk_no_nested(q.node) if isinstance(n, ast.Call) and call_name(n) == "_is_converged" and dotted(kwarg(n, "operation") or (n.args[0] if n.args else None)) == "operation"]
+    guards = [s for s in __import__("sa.guards", fromlist=["sites"]).sites(q.node, lambda n: isinstance(n, ast.Call) and call_name(n) in ("calibrate", "max_calibrate", "_calibrate_junction_tree"))]
+    rc.ob(f"BeliefPropagation._query: convergence test for the requested operation: {len(uses)}; calibration sites: {[norm(g.node) for g in guards]}")
+    if not uses:
+        rc.fail(q, q.node, "a query must re-calibrate unless the clique tree is calibrated FOR THIS operation (beliefs left by max_calibrate or edited factors must not be reused)",
+                construct="BP stale calibration")
+    for g in guards:
+        conds = [norm(t) for t, pol in g.conds]
+        if any("clique_beliefs" in c and "is_converged" not in c for c in conds):
+            rc.fail(q, g.node, "calibration is skipped merely because some beliefs exist", construct="BP calibration guard")
+
+
 @rule("C16.defuse", "anchored files: no parameter is accepted and ignored (generic def-use detector, triaged exemptions)", floor=2)
 def defuse(rc):
     from . import shared as _sh
@@ -302,6 +318,12 @@ MUTANTS = [
     dict(kind="break", name="ve-virtual-evidence-not-restored", file=EI, expect="C16.engine",
          old="                    elimination_order=elimination_order,\n                    joint=joint,\n                    show_progress=show_progress,\n                )\n            finally:\n                # Rebind the engine to the original model (without the virtual evidence nodes).\n                self.__init__(orig_model)",
          new="                    elimination_order=elimination_order,\n                    joint=joint,\n                    show_progress=show_progress,\n                )\n            finally:\n                pass"),
+    dict(kind="break", name="bp-query-reuses-any-beliefs", file=EI, expect="C16.memo",
+         old="        is_calibrated = self._is_converged(operation=operation)\n        # Calibrate the junction tree if not calibrated\n        if not is_calibrated:\n            self.calibrate()",
+         new="        if not self.clique_beliefs:\n            self.calibrate()"),
+    dict(kind="break", name="reduce-maps-cached-by-node-only", file="pgmpy/sampling/Sampling.py", expect="C16.memo",
+         old="    def __init__(self, model):\n        super(BayesianModelSampling, self).__init__(model)\n",
+         new="    def __init__(self, model):\n        super(BayesianModelSampling, self).__init__(model)\n        self._maps = {}\n\n    def _get_maps(self, node, evidence):\n        if node not in self._maps:\n            self._maps[node] = self.pre_compute_reduce_maps(node, evidence)\n        return self._maps[node]\n"),
     dict(kind="break", name="get-cardinality-truthiness", file="pgmpy/models/MarkovNetwork.py", expect="C16.names",
          old="        if node is not None:\n            for factor in self.factors:\n                for variable, cardinality in zip(factor.scope(), factor.cardinality):",
          new="        if node:\n            for factor in self.factors:\n                for variable, cardinality in zip(factor.scope(), factor.cardinality):"),
